@@ -30,7 +30,8 @@ def build(env, nsk_per_cell, nneg):
     rnd = env.rnd
     cw = cl.CaseW()
     points = [("small", p) for p in curves.X25519_SMALL_ORDER]
-    negs = [("neighbour", p) for p in neighbours()] + [("random", g.raw(32)) for _ in range(nneg)]
+    base_pt = (9).to_bytes(32, "little")
+    negs = [("base_point", base_pt), ("base_point", base_pt[:31] + b"\x80")] + [("neighbour", p) for p in neighbours()] + [("random", g.raw(32)) for _ in range(nneg)]
     n = 0
     for cls, pt in points * nsk_per_cell + negs:
         aead = gen.ALL_AEADS[n % 4]
@@ -157,6 +158,13 @@ def run(env):
     res = env.drive("smallorder", cw.text())
     env.require_complete(res, "smallorder")
     mr = env.pmap(monitor, res.sessions, workload="smallorder")
+    if not env.quick():
+        # the zero check under other code generation: native CPU features (SIMD paths), size-optimised, unoptimised
+        small = build(env, 1, 200).text()
+        for b in ("native", "opts", "opt0", "fast"):
+            rb = env.drive("smallorder", small, build=b)
+            env.require_complete(rb, "smallorder/" + b)
+            env.pmap(monitor, rb.sessions, workload="smallorder")
     res2 = env.drive("structured", build_structured(env, env.pick(4, 40)).text())
     env.require_complete(res2, "structured")
     env.pmap(monitor, res2.sessions, workload="structured")
